@@ -519,7 +519,8 @@ def exec_step(step, sess, chains, audit):
             obs['dependents'] = {n: sorted(x.fullname for x in c.dependent_tasks(t)) for n, t in c.tasks.items()}
     elif op == 'arm_fault':
         fn = get_chain().tasks[step['task']].fullname     # a shared object runs under its own full name
-        rt.STATE['faults'][fn] = {'on': rt.STATE['invocations'].get(fn, 0) + step.get('after', 1), 'kind': step['kind']}
+        on_ = rt.STATE['invocations'].get(fn, 0) + step.get('after', 1)
+        rt.STATE['faults'][fn] = {'on': on_, 'until': on_ + step.get('times', 1) - 1, 'kind': step['kind']}
     elif op == 'disarm':
         rt.STATE['faults'].clear()
     elif op == 'drop':
